@@ -1,7 +1,6 @@
 package props
 
 import (
-	"time"
 	"encoding/json"
 	"fmt"
 	nurl "net/url"
@@ -10,6 +9,7 @@ import (
 	"regexp"
 	"strings"
 	"testing"
+	"time"
 
 	distiller "github.com/markusmobius/go-domdistiller"
 	"golang.org/x/net/html"
@@ -238,7 +238,9 @@ func checkC11(c *Case) (*Violation, caseInfo) {
 			}
 			path := "/c11/" + shortHash(d.HTML) + "/page.html"
 			srvPages.Store(path, d.HTML)
-			out = guarded(0, func() (*distiller.Result, error) { return distiller.ApplyForURL(server.URL+path, 10*time.Second, d.Opts.Build()) })
+			out = guarded(0, func() (*distiller.Result, error) {
+				return distiller.ApplyForURL(server.URL+path, 10*time.Second, d.Opts.Build())
+			})
 			if out.Panicked {
 				return "", false
 			}
